@@ -323,15 +323,22 @@ func (fr *Frame) evalIdent(name string, env *evalEnv) (Value, error) {
 		if cands, ok := fr.locals[name]; ok || fr.hasPhiNamed(name) {
 			var best ssa.Value
 			bestKey := -1
-			for _, c := range cands {
+			for ci, c := range cands {
 				if _, ok := fr.vals[c]; !ok {
 					if _, isC := c.(*ssa.Const); !isC {
 						continue
 					}
 				}
-				in, ok := c.(ssa.Instruction)
+				// the name denotes this value at the point of the reference that recorded it (a
+				// definition or a use): that point, not the value's own definition, must dominate
+				var in ssa.Instruction
+				if ats := fr.localAt[name]; ci < len(ats) && ats[ci] != nil {
+					in = ats[ci]
+				} else if x, ok := c.(ssa.Instruction); ok {
+					in = x
+				}
 				key := 0
-				if ok {
+				if in != nil {
 					b := in.Block()
 					if fr.cur != nil && !b.Dominates(fr.cur) {
 						continue
